@@ -1,2 +1,4 @@
 import MellonModel.Scalar
 import MellonModel.Linalg
+import MellonModel.Kernel
+import MellonModel.Conditional
